@@ -753,3 +753,80 @@ Proof. intros Hok. split.
   - destruct (dg_reduced_ext_eq_serial true c pairs Hok) as [_ ->].
     rewrite (dg_slice_fold_delta dg_omax None dg_omax_comm dg_omax_e_l). apply dg_max_is_max.
 Qed.
+
+(** ** fixed-index slices in canonical coordinates *)
+Lemma dg_matches_spec fixs : forall idx, length idx = length fixs ->
+  (dg_matches fixs idx = true <-> forall i v, i < length fixs -> nth i fixs None = Some v -> nth i idx 0 = v).
+Proof.
+  induction fixs as [|f fixs IH]; intros [|j idx] Hl; cbn [length] in Hl; try discriminate.
+  - cbn. split; [intros _ i v Hi; lia|reflexivity].
+  - specialize (IH idx ltac:(lia)). destruct f as [x|]; cbn [dg_matches].
+    + rewrite andb_true_iff, Nat.eqb_eq, IH. split.
+      * intros [E H] [|i] v Hi Hn; cbn [nth] in *; [injection Hn as <-; exact E|apply H; [cbn [length] in Hi; lia|exact Hn]].
+      * intros H. split; [apply (H 0 x); [cbn [length]; lia|reflexivity]|].
+        intros i v Hi Hn. apply (H (S i) v); [cbn [length]; lia|exact Hn].
+    + rewrite IH. split.
+      * intros H [|i] v Hi Hn; cbn [nth] in *; [discriminate|apply H; [cbn [length] in Hi; lia|exact Hn]].
+      * intros H i v Hi Hn. apply (H (S i) v); [cbn [length]; lia|exact Hn].
+Qed.
+
+(** the fixed index of canonical dimension x, if any: zip(axis, fixValue) looked up by axis *)
+Definition dg_pair_fix (pairs : list (nat * nat)) (x : nat) : option nat :=
+  match find (fun af => fst af =? x) pairs with Some af => Some (snd af) | None => None end.
+Definition dg_cfixs (c : dg_cfg) (pairs : list (nat * nat)) : list (option nat) :=
+  map (dg_pair_fix pairs) (seq 0 (dg_ndims c)).
+
+Lemma dg_fixs_eq c pairs : dg_fixs c pairs = map (dg_pair_fix pairs) (dg_dims c).
+Proof. reflexivity. Qed.
+
+Lemma dg_nth_map_opt {A} (f : nat -> option A) l i : i < length l -> nth i (map f l) None = f (nth i l 0).
+Proof. intros Hi. rewrite (nth_indep _ None (f 0)) by (rewrite map_length; exact Hi). apply map_nth. Qed.
+
+Lemma dg_matches_canon c pairs g : perm_b (dg_ndims c) (dg_dims c) = true -> length g = dg_ndims c ->
+  dg_matches (dg_fixs c pairs) g = dg_matches (dg_cfixs c pairs) (dg_canon c g).
+Proof.
+  intros Hp Hg.
+  assert (L1 : length g = length (dg_fixs c pairs)) by (rewrite dg_fixs_eq, map_length; exact Hg).
+  assert (L2 : length (dg_canon c g) = length (dg_cfixs c pairs))
+    by (unfold dg_canon, dg_cfixs; rewrite !map_length; reflexivity).
+  pose proof (dg_matches_spec _ _ L1) as S1. pose proof (dg_matches_spec _ _ L2) as S2.
+  assert (E : dg_matches (dg_fixs c pairs) g = true <-> dg_matches (dg_cfixs c pairs) (dg_canon c g) = true).
+  { rewrite S1, S2. rewrite dg_fixs_eq. unfold dg_cfixs. rewrite !map_length, seq_length. fold (dg_ndims c). split.
+    - intros H x v Hx Hn. rewrite dg_nth_map_opt in Hn by (rewrite seq_length; exact Hx). rewrite seq_nth in Hn by exact Hx.
+      cbn [Nat.add] in Hn. rewrite (dg_canon_nth c g x Hx).
+      destruct (dg_inv_spec c x Hp Hx) as [Hi Ei]. destruct (perm_bwd _ _ Hp x Hx) as [_ Hb].
+      apply (H (dg_inv c x) v Hi). rewrite dg_nth_map_opt by exact Hi. rewrite Ei, Hb. exact Hn.
+    - intros H i v Hi Hn. rewrite dg_nth_map_opt in Hn by exact Hi.
+      destruct (perm_fwd _ _ Hp i Hi) as [Hx Ef]. set (x := nth i (dg_dims c) 0) in *.
+      specialize (H x v Hx). rewrite dg_nth_map_opt in H by (rewrite seq_length; exact Hx).
+      rewrite seq_nth in H by exact Hx. cbn [Nat.add] in H. specialize (H Hn).
+      rewrite (dg_canon_nth c g x Hx) in H. destruct (dg_inv_spec c x Hp Hx) as [_ Ei]. rewrite Ei, Ef in H. exact H. }
+  destruct (dg_matches (dg_fixs c pairs) g), (dg_matches (dg_cfixs c pairs) (dg_canon c g)); try reflexivity.
+  - symmetry. apply E. reflexivity.
+  - apply E. reflexivity.
+Qed.
+
+(** getMin / getMax (drawingRank, axis, fixValue) = extremum over the cells of the global array, canonical
+    coordinates (r, theta, z, v), whose coordinate along every given axis equals the given fixValue *)
+Theorem dg_reduced_ext_canonical mx c pairs : dg_link_ok c = true ->
+  dg_reduced_ext mx c pairs
+  = dg_ndfold (dg_ext mx) None (dg_canon_full c)
+      (fun idx => if dg_matches (dg_cfixs c pairs) idx then Some (dg_zn (dg_re c) (ravel (dg_N c) idx)) else None).
+Proof.
+  intros Hok. destruct (dg_link_ok_facts c Hok) as [Hp _].
+  destruct (dg_reduced_ext_eq_serial mx c pairs Hok) as [_ ->].
+  rewrite (dg_slice_fold_delta (dg_ext mx) None (dg_ext_comm mx) (dg_ext_e_l mx)).
+  rewrite <- (dg_layout_order_irrelevant (dg_ext mx) None (dg_ext_assoc mx) (dg_ext_comm mx) (dg_ext_e_l mx) c _ Hp).
+  apply (dg_ndfold_ext_in (dg_ext mx) None). intros g Hg.
+  rewrite (dg_matches_canon c pairs g Hp); [reflexivity|].
+  rewrite (dg_inbox_length _ _ Hg). unfold dg_full. rewrite map_length, seq_length. reflexivity.
+Qed.
+
+Theorem dg_reduced_ext_canonical_spec c pairs : dg_link_ok c = true ->
+  dg_is_ext Z.le (dg_inbox (dg_canon_full c))
+    (fun idx => if dg_matches (dg_cfixs c pairs) idx then Some (dg_zn (dg_re c) (ravel (dg_N c) idx)) else None)
+    (dg_reduced_ext false c pairs)
+  /\ dg_is_ext Z.ge (dg_inbox (dg_canon_full c))
+    (fun idx => if dg_matches (dg_cfixs c pairs) idx then Some (dg_zn (dg_re c) (ravel (dg_N c) idx)) else None)
+    (dg_reduced_ext true c pairs).
+Proof. intros Hok. rewrite !(dg_reduced_ext_canonical _ c pairs Hok). split; [apply dg_min_is_min|apply dg_max_is_max]. Qed.
